@@ -31,6 +31,22 @@ def relabel(g):
             "ins": [f(v) for v in g["ins"]], "outs": [f(v) for v in g["outs"]], "sc": g["sc"]}
 
 
+def leg_family():
+    """Hadamard edges on some but not all legs of a multi-leg spider, with and without a swap upstream (the import
+    has to put each Hadamard on the wire its edge belongs to, whatever order the graph lists the neighbours in)"""
+    ZB = lambda k, n, m, ph=0: {"k": k, "n": n, "m": m, "ph": ph, "re": 0, "im": 0, "s": 0}
+    out = []
+    for k in ("Z", "X"):
+        for n in (2, 3):
+            for mask in range(1, 2 ** n - 1):
+                for pre in ((), ((0,),), ((n - 2,),), ((0,), (n - 2,))):
+                    layers = [{"b": ZB("H", 1, 1), "off": i} for i in range(n) if mask >> i & 1]
+                    layers += [{"b": ZB("SWAP", 2, 2), "off": o[0]} for o in pre]
+                    layers.append({"b": ZB(k, n, 1, 3), "off": 0})
+                    out.append({"dom": n, "layers": layers})
+    return out
+
+
 def run(tier, seed, t0):
     c = CONST[tier]
     rnd = core.rng(seed, "C17")
@@ -65,6 +81,8 @@ def run(tier, seed, t0):
             if steps:
                 sample.append(steps[-1][1]["zd"])
             os.remove(path)
+        family = leg_family()
+        sample = sample + (family if tier != "quick" else family[::2])
         rows, tens = [], []
         for d in sample:
             rec = {"kind": "to", "zx": d, "g": EMPTY_G, "exc": "", "bad": ""}
@@ -85,8 +103,7 @@ def run(tier, seed, t0):
                 continue
             # import: the exported graph, its relabelling, and ill-formed boundary declarations
             variants = [(rec["g"], "")]
-            if len(rows) % 2 == 0:
-                variants.append((relabel(rec["g"]), ""))
+            variants.append((relabel(rec["g"]), ""))
             if rec["g"]["ins"] and len(rows) % 5 == 0:
                 variants.append((dict(rec["g"], ins=rec["g"]["ins"][1:]), "missing"))
             if rec["g"]["ins"] and rec["g"]["outs"] and len(rows) % 7 == 0:
